@@ -8,7 +8,11 @@
              3 ArrayVec<u8,N> (cap<=16)  4 SmallVec<[u8;4]> (cap>=4)  5 BytesMut
      steps   0 query | 1 b e1 slice(b..e1-1), e1=0: slice(b..) | 2 uninit()
              3 k fill+advance_to(k) | 4 k fill+advance(k) | 5 k fill+set_len(k)
+             6 flatten (when the view is a Slice of a Slice, else nothing)
+             7 n root.set_capacity(n) (pool buffers, else nothing)
      result  Q0 Q1 .. Qn  rlen cap cells..     Q = o l o' c rlen
+   pool case      3 drv full nsteps (code a b)*    drv 0 polling (fallback pool) 1 io_uring
+     a fresh BufferRef of `full` bytes (len 0); same steps; result Q.. rlen cap full cells..
    vectored case  2 container nm (kind len cap)* nsteps (code a)*
      container 0 Vec<T>  1 (T,(T,..(T,)))  2 (T,(T,..()))
      steps   0 query | 1 b slice(b) | 2 b slice_mut(b) | 3 n fill+advance_vec_to(n)
@@ -49,7 +53,7 @@ Definition dec_root (l : list N) : option (root * list N) :=
   | k :: len :: cap :: r =>
     let? kd := dec_kind k in
     if N.leb len 64 && N.leb cap 64 && root_ok k (nn len) (nn cap)
-    then Some (mkroot kd (canaries_from 0 (nn cap)) (nn len), r)
+    then Some (mkroot kd (canaries_from 0 (nn cap)) (nn len) 0, r)
     else None
   | _ => None
   end.
@@ -68,7 +72,8 @@ Definition enc_panic (c : N) : list N := [2%N; c].
 
 Inductive bstep :=
 | BQuery | BSlice (b : nat) (e : option nat) | BUninit
-| BFillTo (k : nat) | BFillAdv (k : nat) | BFillSet (k : nat).
+| BFillTo (k : nat) | BFillAdv (k : nat) | BFillSet (k : nat)
+| BFlatten | BSetCap (n : N).
 
 Definition dec_bstep (code a b : N) : option bstep :=
   match code with
@@ -78,6 +83,8 @@ Definition dec_bstep (code a b : N) : option bstep :=
   | 3%N => Some (BFillTo (nn a))
   | 4%N => Some (BFillAdv (nn a))
   | 5%N => Some (BFillSet (nn a))
+  | 6%N => Some BFlatten
+  | 7%N => Some (BSetCap a)
   | _ => None
   end.
 
@@ -110,6 +117,8 @@ Definition bstep_apply (st : bstep) (v : view) (r : root) (j : nat) : R (view * 
   | BFillTo k => let! r1 := b_write v j k r in let! r2 := r_advance_to v k r1 in Ok (v, r2, S j)
   | BFillAdv k => let! r1 := b_write v j k r in let! r2 := r_advance v k r1 in Ok (v, r2, S j)
   | BFillSet k => let! r1 := b_write v j k r in let! r2 := r_set_len v k r1 in Ok (v, r2, S j)
+  | BFlatten => Ok (match flatten_view v with Some v' => v' | None => v end, r, j)
+  | BSetCap n => Ok (v, pool_set_capacity n r, j)
   end.
 
 Fixpoint run_b (steps : list bstep) (v : view) (r : root) (j : nat) (acc : list N)
@@ -124,6 +133,23 @@ Fixpoint run_b (steps : list bstep) (v : view) (r : root) (j : nat) (acc : list 
 
 Definition run_buffer (r : root) (steps : list bstep) : R (list N) :=
   let! q := enc_q VBase r in run_b steps VBase r 0 q.
+
+(* pool buffers print the full length of the underlying buffer too *)
+Definition enc_pool_root (r : root) : list N :=
+  [NN (rlen r); NN (rcap r); NN (length (rcells r))] ++ rcells r.
+
+Fixpoint run_p (steps : list bstep) (v : view) (r : root) (j : nat) (acc : list N)
+  : R (list N) :=
+  match steps with
+  | [] => Ok (acc ++ enc_pool_root r)
+  | st :: rest =>
+    let! '(v', r', j') := bstep_apply st v r j in
+    let! q := enc_q v' r' in
+    run_p rest v' r' j' (acc ++ q)
+  end.
+
+Definition run_pool (r : root) (steps : list bstep) : R (list N) :=
+  let! q := enc_q VBase r in run_p steps VBase r 0 q.
 
 (* ---- vectored cases --------------------------------------------------- *)
 
@@ -274,6 +300,17 @@ Definition run_opt (l : list N) : option (list N) :=
     if negb (N.leb ns 64) then None else
     let? steps := dec_bsteps (nn ns) l in
     match run_buffer r steps with
+    | Ok out => Some out
+    | Panic c => Some (enc_panic c)
+    end
+  | 3%N =>
+    let? '(drv, l) := take1 l in
+    let? '(full, l) := take1 l in
+    if negb (N.leb drv 1 && N.leb 1 full && N.leb full 64) then None else
+    let? '(ns, l) := take1 l in
+    if negb (N.leb ns 64) then None else
+    let? steps := dec_bsteps (nn ns) l in
+    match run_pool (mkroot KPool (canaries_from 0 (nn full)) 0 (nn full)) steps with
     | Ok out => Some out
     | Panic c => Some (enc_panic c)
     end
